@@ -367,3 +367,122 @@ def pfid2(vc):
             if bf2.expr_eval(out.value, set(present), names) != bf2.filter_eval(f, set(present)):
                 ok = False
     vc.prove("expression-equivalent-to-filter-bytes", ok, out.value)
+
+
+# ---------------------------------------------------------------------------------------
+# per-section instruction tags: "the section's ... filter, version, checksum and reboot tags as the BF2 instructions state".
+# Grammar: every section is opened by #>CHECK_FWVER (the separator the converter keys on), may carry ##CRC and
+# #>SELECT FILTER= before its data; #>REBOOT may close the file.  CRC / version / reboot belong to ONE section,
+# the SELECT filter stays in force until replaced.  Independent expectation computed here; bounded (grammar product).
+
+def fam_tags(seed, tier):
+    import itertools
+    import random
+    rnd = random.Random(seed)
+    kinds = [0x35, 0x3D, 0x84]          # SM4200 blob, PN5180 blob, main firmware
+    combos = list(itertools.product([None, "DEADBEEF", "00000001"], repeat=2))
+    for tts in ([0x35, 0x84], [0x3D, 0x84], [0x35, 0x3D], [0x84], [0x35, 0x3D, 0x84]):
+        for crcs in itertools.product([None, "DEADBEEF", "00000001"], repeat=len(tts)):
+            if len(tts) == 3 and rnd.random() < 0.6:
+                continue
+            vers = [rnd.choice(["*", "00000401020304", "000002AABB"]) for _ in tts]
+            yield dict(tts=tts, crcs=list(crcs), vers=vers, reboot=rnd.random() < 0.5, filt=rnd.choice([None, 0, len(tts) - 1]))
+
+
+@proof("C13/bf2_import.section-tags", functions=[(MOD, "Bf3File.bf2_import"), (MOD, "Bf3File.exec_bf2instrs")],
+       family=fam_tags, bounded_only=True)
+def section_tags(vc):
+    import io
+    from spec import bf2
+    M = vc.module(MOD)
+    tts, crcs, vers = vc._get("tts"), vc._get("crcs"), vc._get("vers")
+    reboot, filt = vc._get("reboot"), vc._get("filt")
+    hw = {0x35: "009B", 0x3D: "00AD"}          # single-id filters outside the documented BGM12X special cases
+    secs = []
+    for k, tt in enumerate(tts):
+        ins = [("CHECK_FWVER", "VERSIONDESC=%s" % vers[k])]
+        if tt in hw:
+            ins.append(("SELECT", "FILTER=0101" + hw[tt]))
+        elif filt == k:
+            ins.append(("SELECT", "FILTER=010200B600BE"))
+        s = bf2.Section(tt, bytes([k + 1]) * (40 + k), None, 16, ins)
+        s.crc = crcs[k]
+        secs.append(s)
+    # ##CRC lines are header-style lines; render() knows only '#>' instructions, so they are spliced in here
+    text = bf2.render(secs, [("Creator", "gen"), ("Bf3Update", "1")], trailing=[("REBOOT", "")] if reboot else [])
+    lines = text.split("\n")
+    out_lines, si = [], -1
+    for ln in lines:
+        out_lines.append(ln)
+        if ln.startswith("#>CHECK_FWVER"):
+            si += 1
+            if secs[si].crc:
+                out_lines.append("##CRC: 0x%s" % secs[si].crc)
+    text = "\n".join(out_lines)
+    out = vc.call(M.Bf3File.bf2_import, io.StringIO(text))
+    vc.prove("accepted", out.returned, repr(out.exc))
+    if not out.returned:
+        return
+    comps = out.value.components
+    type_of = {k: v[0] for k, v in M.BF2_TAGTYPE_MAP.items()}
+    fmt_of = {k: v[2] for k, v in M.BF2_TAGTYPE_MAP.items()}
+    bad = []
+    for k, tt in enumerate(tts):
+        want_blob = bf2.expected_payload(secs[k], fmt_of[tt])
+        c = next((c for c in comps if c.blob == want_blob), None)
+        if c is None:
+            bad.append(("section %d missing" % k,))
+            continue
+        d = dict(c.description)
+        want_crc = bytes.fromhex(crcs[k]) if crcs[k] else None
+        if d.get(0xC7) != want_crc:
+            bad.append(("section %d checksum tag" % k, d.get(0xC7), want_crc))
+        v = vers[k]
+        want_ver = None
+        if v != "*":
+            raw = bytes.fromhex(v)
+            want_ver = raw[3:3 + raw[2]]
+        if tt != 0x84 and d.get(0xC8) != want_ver:
+            bad.append(("section %d version tag" % k, d.get(0xC8), want_ver))
+        want_reboot = b"\x01" if (reboot and k == len(tts) - 1) else None
+        if d.get(0xC5) != want_reboot:
+            bad.append(("section %d reboot tag" % k, d.get(0xC5), want_reboot))
+        if tt in hw and (d.get(0xC4) != bytes.fromhex(hw[tt]) or d.get(0xC9) != bytes.fromhex("0101" + hw[tt])):
+            bad.append(("section %d hw id / filter" % k, d.get(0xC4), d.get(0xC9)))
+        if d.get(0xC3) != bytes([type_of[tt]]):
+            bad.append(("section %d type" % k, d.get(0xC3)))
+    vc.prove("tags-as-the-instructions-of-that-section-state", not bad, repr(bad[:3]))
+
+
+@proof("C13/exec_bf2instrs.consumption", functions=[(MOD, "Bf3File.exec_bf2instrs")],
+       family=lambda seed, tier: [dict(crc=c, reboot=r, ver=v, sel=s) for c in (False, True) for r in (False, True)
+                                  for v in ("none", "*", "hex") for s in (False, True)])
+def exec_instrs(vc):
+    """one call: REBOOT, CRC and CHECK_FWVER belong to the component being emitted and are CONSUMED (removed from the
+    pending instructions); SELECT / SELECT_IF / header values stay in force.  Tags are what the instructions state."""
+    M = vc.module(MOD)
+    crc = vc.bool("crc")
+    reboot = vc.bool("reboot")
+    ver = vc.choice("ver", ["none", "*", "hex"])
+    sel = vc.bool("sel")
+    instrs = {}
+    if crc:
+        instrs["CRC"] = "0xCAFE0001"
+    if reboot:
+        instrs["REBOOT"] = {}
+    if ver != "none":
+        instrs["CHECK_FWVER"] = {"VERSIONDESC": "*" if ver == "*" else "00000401020304"}
+    if sel:
+        instrs["SELECT"] = {"FILTER": "0101009B"}
+    instrs["Creator"] = "x"
+    desc = {0xC1: b"\x00", 0xC3: b"\x01"}        # a peripheral blob (BF3TYPE.PERIPHERAL)
+    comments = {}
+    M.Bf3File.exec_bf2instrs(instrs, desc, comments)
+    vc.prove("per-component-instructions-consumed", "CRC" not in instrs and "REBOOT" not in instrs and "CHECK_FWVER" not in instrs)
+    vc.prove("filter-and-header-values-stay-in-force", ("SELECT" in instrs) == bool(sel) and "Creator" in instrs)
+    vc.prove("checksum-tag", desc.get(0xC7) == (bytes.fromhex("CAFE0001") if crc else None))
+    vc.prove("reboot-tag", desc.get(0xC5) == (b"\x01" if reboot else None))
+    vc.prove("version-tag", desc.get(0xC8) == (bytes([1, 2, 3, 4]) if ver == "hex" else None))
+    vc.prove("filter-and-hw-id-tags", (desc.get(0xC9), desc.get(0xC4)) == ((bytes.fromhex("0101009B"), bytes.fromhex("009B")) if sel
+                                                                         else (None, None)))
+    vc.cover("executed")
